@@ -17,6 +17,8 @@ def reproduces(rec, sig):
 
 def run_plan(mod, plan):
     def job():
+        if hasattr(mod, "INLINE_TWIN"):
+            mod.INLINE_TWIN = True
         rec = mod.execute(plan)
         return {"violations": rec["violations"], "plan": rec["plan"], "text": rec.get("text"), "digest": rec["digest"], "log": rec.get("log")}
 
